@@ -21,13 +21,12 @@
 (*                                                                         *)
 (* FSem(x, row, rows) is the SET of truth values the property allows:      *)
 (*   ==  !=     by value for two values of one kind (numbers by numeric    *)
-(*              value, date-times by instant, Refs by name)                *)
+(*              value and unit, date-times by instant, Refs by name);      *)
+(*              across kinds == is FALSE and != TRUE                       *)
 (*   <  <= > >= numbers, quantities of one unit, strings (code points),    *)
-(*              dates, times, date-times; FALSE across kinds               *)
-(*   kindred kinds (bool/number/quantity, str/uri/bin, date/date-time),    *)
-(*   NaN,                                                                  *)
-(*   quantities of different units under an ordering, ordering inside an   *)
-(*   unordered kind, a tag mapped to null: not constrained                 *)
+(*              dates, times, date-times; FALSE across kinds and units     *)
+(*   a null cell is an absent tag                                          *)
+(*   NaN, ordering inside an unordered kind, the literal N: not constrained*)
 (***************************************************************************)
 EXTENDS ZincRead
 
@@ -220,23 +219,23 @@ DecCmp(a, b) ==
 InstCmp(a, b) == LET x == InstantOf(a)  y == InstantOf(b)
                  IN V!SeqCmp(x, y)
 
-FFamily(k) == CASE k \in {4, 5, 6} -> "numeric" [] k \in {7, 8, 9} -> "text" [] k \in {12, 14} -> "day" [] OTHER -> "none"
 FOrdered == {5, 6, 7, 12, 13, 14}
 
 \* allowed outcomes of `==' between two values of one kind
 SameKindEq(l, v) ==
     CASE l[1] = 5  -> IF IsNaNDec(l[2]) \/ IsNaNDec(v[2]) THEN BOOLEAN ELSE {DecCmp(l[2], v[2]) = 0}
-      [] l[1] = 6  -> IF IsNaNDec(l[2]) \/ IsNaNDec(v[2]) THEN BOOLEAN ELSE {DecCmp(l[2], v[2]) = 0 /\ l[3] = v[3]}
-      [] l[1] = 10 -> IF l[2] # v[2] THEN {FALSE} ELSE IF l = v THEN {TRUE} ELSE BOOLEAN   \* same name, other display
+      [] l[1] = 6  -> IF l[3] # v[3] THEN {FALSE}
+                      ELSE IF IsNaNDec(l[2]) \/ IsNaNDec(v[2]) THEN BOOLEAN ELSE {DecCmp(l[2], v[2]) = 0}
+      [] l[1] = 10 -> {l[2] = v[2]}                 \* a Ref is its identifier; the display name is a decoration
       [] l[1] = 14 -> {InstCmp(l, v) = 0}
       [] l[1] \in {16, 17, 18} -> IF l = v THEN {TRUE} ELSE BOOLEAN      \* nested values: only identity is constrained
       [] l[1] = 15 -> IF l = v THEN {TRUE} ELSE BOOLEAN                  \* coordinates are rounded on the way
       [] OTHER -> {l = v}
 
-\* -1 / 0 / 1 for two values of one ordered kind; 2 when the order is not defined
+\* -1 / 0 / 1 for two values of one ordered kind; 2 when the order is not defined; 3 when the two are not comparable
 SameKindCmp(l, v) ==
     CASE l[1] = 5  -> IF IsNaNDec(l[2]) \/ IsNaNDec(v[2]) THEN 2 ELSE DecCmp(v[2], l[2])
-      [] l[1] = 6  -> IF IsNaNDec(l[2]) \/ IsNaNDec(v[2]) \/ l[3] # v[3] THEN 2 ELSE DecCmp(v[2], l[2])
+      [] l[1] = 6  -> IF l[3] # v[3] THEN 3 ELSE IF IsNaNDec(l[2]) \/ IsNaNDec(v[2]) THEN 2 ELSE DecCmp(v[2], l[2])
       [] l[1] = 7  -> V!SeqCmp(v[2], l[2])
       [] l[1] = 12 -> V!SeqCmp(Tail(v), Tail(l))
       [] l[1] = 13 -> V!SeqCmp(Tail(v), Tail(l))
@@ -245,17 +244,15 @@ SameKindCmp(l, v) ==
 
 FAbsent == <<98>>
 FCmpSem(o, lit, v) ==
-    IF v = FAbsent THEN {FALSE}
-    ELSE IF v = <<0>> \/ lit = <<0>> THEN BOOLEAN                        \* null
-    ELSE IF v[1] # lit[1] THEN
-         (IF FFamily(v[1]) = FFamily(lit[1]) /\ FFamily(v[1]) # "none" THEN BOOLEAN
-          ELSE IF o = "!=" THEN BOOLEAN ELSE {FALSE})
+    IF v = FAbsent \/ v = <<0>> THEN {FALSE}                           \* a null cell is an absent tag
+    ELSE IF lit = <<0>> THEN BOOLEAN                                    \* the literal N: not constrained
+    ELSE IF v[1] # lit[1] THEN {o = "!="}                              \* another kind: unequal, and not ordered
     ELSE IF o = "==" THEN SameKindEq(lit, v)
-    ELSE IF o = "!=" THEN (IF lit[1] = 6 /\ lit[3] # v[3] THEN BOOLEAN      \* units differ: unequal, or "incomparable"
-                           ELSE {~b : b \in SameKindEq(lit, v)})
+    ELSE IF o = "!=" THEN {~b : b \in SameKindEq(lit, v)}
     ELSE IF lit[1] \notin FOrdered THEN BOOLEAN
     ELSE LET c == SameKindCmp(lit, v)       \* v relative to the literal
          IN IF c = 2 THEN BOOLEAN
+            ELSE IF c = 3 THEN {FALSE}
             ELSE CASE o = "<"  -> {c < 0}
                    [] o = "<=" -> {c <= 0}
                    [] o = ">"  -> {c > 0}
@@ -287,8 +284,8 @@ FSem(x, row, rows) ==
     CASE x.t \in {"has", "missing", "cmp"} ->
            LET r == FResolveFrom(x.p, 1, row, rows)
            IN IF ~r[1] THEN BOOLEAN
-              ELSE IF x.t = "has" THEN {r[2] # FAbsent}
-              ELSE IF x.t = "missing" THEN {r[2] = FAbsent}
+              ELSE IF x.t = "has" THEN {r[2] # FAbsent /\ r[2] # <<0>>}
+              ELSE IF x.t = "missing" THEN {r[2] = FAbsent \/ r[2] = <<0>>}
               ELSE FCmpSem(x.o, x.lit[2], r[2])
       [] x.t = "paren" -> FSem(x.x, row, rows)
       [] x.t = "and"   -> FoldLeft(LAMBDA acc, y : {p /\ q : p \in acc, q \in FSem(y, row, rows)}, {TRUE}, x.xs)
